@@ -256,11 +256,18 @@ META["C01"] = {
 }
 def c01_name():
     qs = []
-    for L in (6, 18, 19, 20, 26, 32, 34, 38):
-        tiers = ("quick", "thorough") if L <= 26 else ("thorough",)      # two name records (>= 32 bytes) need > 240 s
-        qs.append(Q(f"name_len{L}", "nametable.cpp", "vh_name", {"LEN": L}, unwind=8,
-                    unwindset={"vh_bytes": L + 1, "Locale2Lang": 260, "getMsId": 5, "strncmp": 6, "strchr": 5, "strlen": 5, "NameTable": 8, "getName": 12, "setPlatformEncoding": 8, "getLanguageId": 8, "validate": 10, "vh_stub_locale2lang": 28}, tiers=tiers, timeout=1700 if L > 26 else None,
-                    stubs=["_ZN9graphite211Locale2LangC2Ev"]))
+    # getName never returns record 0 (index 0 doubles as "not found"), so its allocations are reachable only with two records (>= 30 bytes)
+    for L, so, tiers in ((6, None, None), (18, None, None), (19, None, None), (20, None, None), (26, None, None), (32, 30, None), (34, 30, None),
+                         (32, None, ("thorough",)), (38, 30, ("thorough",))):
+        span = (L - so) if so is not None else L          # bytes of string storage a record may claim (x2: slack for bound checks that are off by a factor)
+        ml = span if L >= 30 else 0
+        cases = sorted({0, L} | {(l + 1) * 2 for l in range(ml + 1)} | {(l + 1) * 4 for l in range(ml + 1)} | {3 * l + 1 for l in range(ml + 1)}) if L >= 30 else [0, L]
+        d = {"LEN": L}
+        if so is not None: d["STROFF_MIN"] = so
+        qs.append(Q(f"name_len{L}" + ("" if so is None or tiers else "") + ("_anyoffset" if (so is None and L >= 30) else ""), "nametable.cpp", "vh_name", d, unwind=8,
+                    unwindset={"vh_bytes": L + 1, "Locale2Lang": 260, "getMsId": 5, "strncmp": 6, "strchr": 5, "strlen": 5, "NameTable": 8, "getName": ml + 4, "setPlatformEncoding": 8, "getLanguageId": 8, "validate": ml + 4, "vh_stub_locale2lang": 28,
+                               "lid:ll_malloc_split": len(cases) + 2, "lid:ll_calloc_split": len(cases) + 2, "lid:ll_realloc_split": len(cases) + 2, "lid:ll_memmove_sym": len(cases) + 2},
+                    tiers=tiers or ("quick", "thorough"), timeout=1700 if tiers else None, stubs=["_ZN9graphite211Locale2LangC2Ev"], cc_defs=["LL_MEM_CASES=" + ",".join(map(str, cases))]))
     return qs
 DECODER_CTOR = "_ZN9graphite22vm7Machine4Code7decoderC2ERNS3_6limitsERS2_NS_8passtypeE"
 def decoder_query(name, entry, L, rl, extra=None, tiers=("thorough",), timeout=1700):
@@ -317,6 +324,11 @@ def c16():
             if hdr and nm != "Silf": continue
             qs.append(Q(f"table_{nm}_len{L}_hdr{hdr:x}", "C16_table.cpp", "vh_table", {"TAGV": tag, "LEN": L, "HDRW": hdr}, unwind=8,
                         unwindset={"vh_bytes": L + 1, "read_literal": L, "safe_copy": 40, "overrun_copy": 8, "fast_copy": 8, "decompress": L // 3 + 2}, leak=False))
+    for L, extra in ((0, {"NOTABLE": 1}), (4, {}), (6, {}), (19, {})):       # no table / too short / empty but valid / one record
+        qs.append(Q(f"name_sealed_len{L}" + ("_absent" if extra else ""), "sealed.cpp", "vh_name_sealed", dict({"LEN": max(L, 1)}, **extra), unwind=8,
+                    unwindset={"vh_bytes": L + 2, "NameTable": 6, "setPlatformEncoding": 4, "getLanguageId": 4, "vh_stub_locale2lang": 28,
+                               "lid:ll_malloc_split": 8, "lid:ll_calloc_split": 8, "lid:ll_realloc_split": 8, "lid:ll_memmove_sym": 8}, stubs=["_ZN9graphite211Locale2LangC2Ev"],
+                    cc_defs=["LL_MEM_CASES=0,1,4,6,19"]))
     for L, out in ((21, 14), (21, 16), (22, 16)):
         qs.append(Q(f"table_Silf_lz4_len{L}_out{out}", "C16_table.cpp", "vh_table", {"TAGV": 0x53696c66, "LEN": L, "HDRW": 0x08000000 | out}, unwind=8,
                     unwindset={"vh_bytes": L + 1, "read_literal": L, "safe_copy": 40, "overrun_copy": 8, "fast_copy": 8, "decompress": L // 3 + 2},
@@ -339,7 +351,7 @@ def c15():
                 part = slot_queries("C15", ["vh_scale"], 1, 3, extra={"KEXP": k, "FBOUND": "1024.0f", "RTLV": rtl, "FINALV": fin}, src="posn.cpp", with_forest=True)
                 for q in part:
                     q.name = q.name + f"_k{k}_r{rtl}f{fin}".replace("-", "m"); q.dyadic = 4; q.timeout = 1700 if q.defines["NS"] > 1 else None
-                    if q.defines["NS"] == 2 and q.defines.get("FORESTV") == "-1,0" and k == 1 and fin == 1: q.tiers = ("quick", "thorough"); q.timeout = None   # one attached pair in the quick tier (~110 s)
+                    if q.defines["NS"] == 2 and q.defines.get("FORESTV") == "-1,0" and k == 1 and fin == 1: q.tiers = ("quick", "thorough"); q.timeout = 600   # one attached pair in the quick tier (~110 s alone, > 240 s on a loaded machine)
                 qs += part
     return qs
 
